@@ -9,19 +9,20 @@
    [vrow gs i] are the float64 values the model of polyform's readers must deliver for vertex i:
    float -> widening of the stored word, uchar -> round(255 x)/255 through the division table, double -> the word.
 
-   The mesh-level statement  read_mesh (write o f m) = expected o m  is proved here per component (header,
-   vertex element, face element, for each encoding); its remaining glue — which readers ply.ReadMesh builds on
-   the written property list (build_readers = layout) and the final attribute regrouping/unweld — is NOT proved:
-   it is evaluated on every generated case by Check/C04.v ([corr_one]: read_mesh file = implementation result =
-   expected o m).  Hence the names ..._partial below; the full statement is kept in the comment next to them. *)
+   Mesh level: [ply_roundtrip_*] below state  read_mesh file = Ok mesh  for the file the writer model emits (given
+   in closed form; [ply_writer_emits] and [ply_face_records_emitted] show these ARE the writer's vertex block and face
+   records) under the decidable side condition [readers_ok]: ply.ReadMesh builds on the written property list exactly
+   the readers laid out on the groups.  [ply_readers_default] discharges it for every subset of ply.Write's own
+   table (256 cases by computation); for user-named attributes and custom tables it is evaluated per generated case
+   by Check/C04.v ([corr_one]: read_mesh file = implementation result = expected o m).  NOT proved: that
+   [write o f m] as a whole equals the closed-form file and that [expected o m] equals the right-hand sides (both are
+   checked on every case, and on [ply_example] below); hence the block theorems keep the suffix _partial and the
+   single full statement stays in this comment:
+     forall o m f, wf_mesh m = true -> exists file, write o f m = Ok file /\ read_mesh file = expected o m.          *)
 From PF Require Import Base.Bytes Formats.PlyRead Formats.PlyWrite Formats.PlyWriteProofs.
 From Coq Require Import String.
 Open Scope list_scope.
 Open Scope N_scope.
-
-(* FULL STATEMENT (not proved as one theorem):
-     forall o m f, wf_mesh m = true -> o uses ply.Write's table ->
-       exists file, write o f m = Ok file /\ read_mesh file = expected o m.                                  *)
 
 (* ---- header: what Header.Write emits parses back to the same format, elements, counts and property list ---- *)
 Theorem ply_header_roundtrip : forall f gs m,
@@ -149,6 +150,87 @@ Proof.
   - intros idx H. apply (tris_spec (List.length idx)); [apply le_n|exact H].
 Qed.
 Print Assumptions ply_header_describes_body.
+
+(* ---- mesh level: ply.ReadMesh's model on the written file (f = BinLE or BinBE; ASCII separately) ---- *)
+Theorem ply_roundtrip_bin_points : forall f gs m, f <> ASCII -> w_topo m = TPoint ->
+  Forall (group_good (w_n m)) gs -> readers_ok true gs ->
+  read_mesh {| pf_header := header_lines f (header_elems gs m);
+               pf_body := BodyBin (flat_map (fun i => flat_map (fun g => genc (enc_of f) g i) gs) (seq 0 (w_n m))) |}
+  = Ok {| m_topo := TPoint; m_idx := iota (w_n m);
+          m_attrs := update_mesh (layout true gs 0) 0 (map (vrow gs) (seq 0 (w_n m))) [] |}.
+Proof. exact read_mesh_pointcloud_bin. Qed.
+Print Assumptions ply_roundtrip_bin_points.
+
+Theorem ply_roundtrip_ascii_points : forall gs m, w_topo m = TPoint ->
+  Forall (group_good (w_n m)) gs -> forallb ascii_ok gs = true -> vertex_props gs <> [] -> readers_ok false gs ->
+  read_mesh {| pf_header := header_lines ASCII (header_elems gs m);
+               pf_body := BodyAscii (map (fun i => flat_map (fun g => gtoks g i) gs) (seq 0 (w_n m))) |}
+  = Ok {| m_topo := TPoint; m_idx := iota (w_n m);
+          m_attrs := update_mesh (layout false gs 0) 0 (map (vrow gs) (seq 0 (w_n m))) [] |}.
+Proof. exact read_mesh_pointcloud_ascii. Qed.
+Print Assumptions ply_roundtrip_ascii_points.
+
+(* triangle meshes without texture coordinates: indices come back unchanged (welded stays welded, unreferenced
+   vertices stay) *)
+Theorem ply_roundtrip_bin_triangles : forall f gs m, f <> ASCII -> w_topo m = TTriangle -> has_tex m = false ->
+  (List.length (w_idx m) mod 3 = 0)%nat -> Forall tri_ok (tris (w_idx m)) ->
+  Forall (group_good (w_n m)) gs -> readers_ok true gs ->
+  read_mesh {| pf_header := header_lines f (header_elems gs m);
+               pf_body := BodyBin (flat_map (fun i => flat_map (fun g => genc (enc_of f) g i) gs) (seq 0 (w_n m))
+                                   ++ flat_map (rec_notex (enc_of f)) (tris (w_idx m))) |}
+  = Ok {| m_topo := TTriangle; m_idx := zidx (w_idx m);
+          m_attrs := update_mesh (layout true gs 0) 0 (map (vrow gs) (seq 0 (w_n m))) [] |}.
+Proof. exact read_mesh_triangles_bin. Qed.
+Print Assumptions ply_roundtrip_bin_triangles.
+
+Theorem ply_roundtrip_ascii_triangles : forall gs m, w_topo m = TTriangle -> has_tex m = false ->
+  (List.length (w_idx m) mod 3 = 0)%nat ->
+  Forall (group_good (w_n m)) gs -> forallb ascii_ok gs = true -> vertex_props gs <> [] -> readers_ok false gs ->
+  read_mesh {| pf_header := header_lines ASCII (header_elems gs m);
+               pf_body := BodyAscii (map (fun i => flat_map (fun g => gtoks g i) gs) (seq 0 (w_n m))
+                                     ++ map line_notex (tris (w_idx m))) |}
+  = Ok {| m_topo := TTriangle; m_idx := zidx (w_idx m);
+          m_attrs := update_mesh (layout false gs 0) 0 (map (vrow gs) (seq 0 (w_n m))) [] |}.
+Proof. exact read_mesh_triangles_ascii. Qed.
+Print Assumptions ply_roundtrip_ascii_triangles.
+
+(* with texture coordinates ([fts]: every face with the six UV words gathered through the index): [mesh_of] is the
+   reader's documented behaviour — at least one face: unweld every attribute through the indices, identity
+   indices, TexCoord = one pair per corner; no face: the welded mesh without TexCoord *)
+Theorem ply_roundtrip_bin_triangles_uv : forall f gs m fts, f <> ASCII -> w_topo m = TTriangle -> has_tex m = true ->
+  (List.length (w_idx m) mod 3 = 0)%nat -> map fst fts = tris (w_idx m) -> Forall ftu_ok fts ->
+  Forall (group_good (w_n m)) gs -> readers_ok true gs ->
+  read_mesh {| pf_header := header_lines f (header_elems gs m);
+               pf_body := BodyBin (flat_map (fun i => flat_map (fun g => genc (enc_of f) g i) gs) (seq 0 (w_n m))
+                                   ++ flat_map (rec_tex (enc_of f)) fts) |}
+  = mesh_of TTriangle (zidx (w_idx m)) (flat_map (fun tu => pairs (map cvF (snd tu))) fts)
+            (update_mesh (layout true gs 0) 0 (map (vrow gs) (seq 0 (w_n m))) []).
+Proof. exact read_mesh_triangles_tex_bin. Qed.
+Print Assumptions ply_roundtrip_bin_triangles_uv.
+
+Theorem ply_roundtrip_ascii_triangles_uv : forall gs m fts, w_topo m = TTriangle -> has_tex m = true ->
+  (List.length (w_idx m) mod 3 = 0)%nat -> map fst fts = tris (w_idx m) -> Forall (fun tu => List.length (snd tu) = 6%nat) fts ->
+  Forall (group_good (w_n m)) gs -> forallb ascii_ok gs = true -> vertex_props gs <> [] -> readers_ok false gs ->
+  read_mesh {| pf_header := header_lines ASCII (header_elems gs m);
+               pf_body := BodyAscii (map (fun i => flat_map (fun g => gtoks g i) gs) (seq 0 (w_n m)) ++ map line_tex fts) |}
+  = mesh_of TTriangle (zidx (w_idx m)) (flat_map (fun tu => pairs (map cvF (snd tu))) fts)
+            (update_mesh (layout false gs 0) 0 (map (vrow gs) (seq 0 (w_n m))) []).
+Proof. exact read_mesh_triangles_tex_ascii. Qed.
+Print Assumptions ply_roundtrip_ascii_triangles_uv.
+
+(* the attribute list in these results, in closed form: one attribute per group (dimension, name, image of every
+   row), in table order — when the (dimension, name) keys are pairwise distinct and there is at least one vertex *)
+Theorem ply_attributes_of_groups : forall bin n gs, (0 < n)%nat ->
+  Forall (fun g => List.length (rg_rows g) = n) gs -> keys_ok [] gs = true ->
+  update_mesh (layout bin gs 0) 0 (map (vrow gs) (seq 0 n)) [] = map gattr gs.
+Proof. exact attrs_of_layout. Qed.
+Print Assumptions ply_attributes_of_groups.
+
+(* the side condition holds for ply.Write's own table, whatever subset of its writers qualifies, in both layouts *)
+Theorem ply_readers_default : forall bin m (sel : pw -> bool),
+  readers_ok bin (map (group_of m) (filter sel default_writers)).
+Proof. exact readers_ok_default. Qed.
+Print Assumptions ply_readers_default.
 
 (* ---- the known finding, as a statement about the reader model: an 8-bit scalar comes back raw from ASCII ---- *)
 Theorem ascii_uchar_scalar_refuted :
